@@ -538,6 +538,48 @@ func init() {
 			}
 		}
 		plush.CacheEnabled = true
+		// (d) a global helper registered (sequentially) just before many goroutines build contexts - own roots,
+		// children of one shared parent - and execute a template that calls it: every one of them sees it
+		for round := 0; round < 12; round++ {
+			name := fmt.Sprintf("c14added%d", round)
+			parent := plush.NewContext() // the shared parent exists before the helper does
+			if err := plush.Helpers.Add(name, func() string { return "ok" }); err != nil {
+				e.Violate("c14-output-differs", fmt.Sprintf("Helpers.Add(%s): %v", name, err), nil)
+				continue
+			}
+			t, err := plush.NewTemplate("<%= " + name + "() %><%= for (i) in [1] { %><%= " + name + "() %><% } %>")
+			if err != nil {
+				continue
+			}
+			G := []int{4, 16}[round%2]
+			outs := make([]string, G)
+			errs := make([]error, G)
+			start := make(chan struct{})
+			var wg sync.WaitGroup
+			for g := 0; g < G; g++ {
+				wg.Add(1)
+				go func(g int) {
+					defer wg.Done()
+					<-start
+					if g%2 == 0 {
+						outs[g], errs[g] = t.Exec(plush.NewContext())
+					} else {
+						outs[g], errs[g] = t.Exec(parent.New())
+					}
+				}(g)
+			}
+			close(start)
+			c14wait(e, &wg)
+			e.rep.Evaluations += G
+			e.Count("helper-added-before")
+			e.Distinct(fmt.Sprintf("added/%d", round))
+			for g := 0; g < G; g++ {
+				if errs[g] != nil || outs[g] != "okok" {
+					e.Violate("c14-output-differs", fmt.Sprintf("a helper registered before %d goroutines built their contexts: goroutine %d got %q, %v; alone \"okok\"", G, g, outs[g], errs[g]), map[string]interface{}{"goroutines": G})
+					break
+				}
+			}
+		}
 		// (c3) a Template built as a literal is parsed by its first Exec: all goroutines make that first
 		// call (and Clone it) at the same moment
 		for round := 0; round < 6; round++ {
